@@ -44,6 +44,10 @@ CERT_DEFECTS = {
     "issuer-crlsign-only": {"ca0": {"ku": ["cRLSign"]}},
     "issuer-ds-crlsign": {"ca0": {"ku": ["digitalSignature", "cRLSign"]}},
     "leaf-bad-signature": {"leaf": {"bad_sig": "flip"}},
+    # a certificate that names another signature algorithm (inner and outer identifier alike) over a value nobody with the issuer's key made
+    "leaf-foreign-sigalg": {"leaf": {"alg_inner": bytes.fromhex("300a06082a8648ce3d040302"), "alg_outer": bytes.fromhex("300a06082a8648ce3d040302"), "bad_sig": "flip"}},
+    "leaf-foreign-sigalg-rsa": {"leaf": {"alg_inner": bytes.fromhex("300d06092a864886f70d01010b0500"), "alg_outer": bytes.fromhex("300d06092a864886f70d01010b0500"), "bad_sig": "flip"}},
+    "ca-foreign-sigalg": {"ca0": {"alg_inner": bytes.fromhex("300a06082a8648ce3d040302"), "alg_outer": bytes.fromhex("300a06082a8648ce3d040302"), "bad_sig": "flip"}},
     "ca-bad-signature": {"ca0": {"bad_sig": "flip"}},
     "leaf-signed-by-other-key": {"leaf": {"signed_by": "root"}},
     "ca-signed-by-other-key": {"ca0": {"signed_by": "leaf"}},
